@@ -394,10 +394,11 @@ class ClassRef(orders.PyStub):
             plain_methods = [m_ for m_, fi_ in c.methods.items()]
             if is_int and [m_ for m_ in plain_methods if not any(isinstance(d_, ast.Name) and d_.id in ('classmethod', 'staticmethod') for d_ in c.methods[m_].node.decorator_list)]:
                 raise orders.Unsupported('IntEnum %s with instance methods' % c.name)
-            members = self._consts.get('__members__')
+            members = self._consts.get('__enum_list__')
             if members is None:
                 members = []
-                self._consts['__members__'] = members
+                self._consts['__enum_list__'] = members
+                self._consts['__members__'] = {}
                 auto_n = 0
                 for st in c.node.body:
                     if isinstance(st, ast.Assign) and len(st.targets) == 1 and isinstance(st.targets[0], ast.Name) and not st.targets[0].id.startswith('_'):
@@ -426,6 +427,7 @@ class ClassRef(orders.PyStub):
                         if not same:
                             members.append(m_)
                         self._consts[nm_] = m_
+                        self._consts['__members__'][nm_] = m_
             object.__setattr__(self, '_enum', members)
         for name, node in methods_of(ctx, clsqual).items():
             params = [a.arg for a in node.args.args]
@@ -444,6 +446,19 @@ class ClassRef(orders.PyStub):
         consts = object.__getattribute__(self, '__dict__').get('_consts')
         if consts is not None and k in consts:
             return consts[k]
+        if k in ('_make', '_fields') and '_qual' in object.__getattribute__(self, '__dict__'):
+            # the class-level helpers of a namedtuple class
+            nt = self._tuple_base()
+            if nt is not None:
+                if k == '_fields':
+                    return tuple(nt._fields)
+
+                def _make(iterable):
+                    vals = list(orders._iter(iterable))
+                    if len(vals) != len(nt._fields):
+                        raise TypeError('Expected %d arguments, got %d' % (len(nt._fields), len(vals)))
+                    return self(*vals)
+                return _make
         raise AttributeError(k)
 
     def __setattr__(self, k, v):
@@ -561,6 +576,11 @@ class ClassRef(orders.PyStub):
         if '_enum' not in self.__dict__:
             raise TypeError('%r object is not iterable' % 'type')
         return iter(list(self.__dict__['_enum']))
+
+    def __reversed__(self):
+        if '_enum' not in self.__dict__:
+            raise TypeError("'type' object is not reversible")
+        return iter(list(self.__dict__['_enum'])[::-1])
 
     def __len__(self):
         if '_enum' not in self.__dict__:
